@@ -550,10 +550,67 @@ def wiring(tree) -> str:
     return W_HEADER + text
 
 
+def itemlist_index_contract(tree) -> None:
+    """TopNRanker returns `items[order]`: the model reads that as "the rows at those positions, in that order".  ItemList.__getitem__
+    may convert its selector (scalar -> one-element array, sequence / tensor -> array) but any other re-binding of it (sorting,
+    de-duplicating, masking by a flag of the list ...) changes what `items[order]` means and fails closed.  The parameter's name is free."""
+    f = pyq.find_def(tree, "ItemList", "__getitem__")
+    params = [a.arg for a in f.args.args]
+    if len(params) != 2:
+        raise TranslateError(f"ItemList.__getitem__ parameters {params}")
+    p = params[1]
+    allowed = {f"np.array([{p}])", f"np.asarray({p})", f"np.asanyarray({p})", f"{p}.numpy()", f"{p}.cpu().numpy()", f"np.require({p}, np.int32)",
+               f"np.require({p}, np.int64)"}
+    for n in ast.walk(f):
+        tgts = []
+        if isinstance(n, ast.Assign):
+            tgts, val = n.targets, n.value
+        elif isinstance(n, (ast.AnnAssign, ast.AugAssign)):
+            tgts, val = [n.target], n.value
+        elif isinstance(n, ast.NamedExpr):
+            tgts, val = [n.target], n.value
+        for t in tgts:
+            if any(isinstance(x, ast.Name) and x.id == p for x in ast.walk(t)):
+                if isinstance(n, ast.AugAssign) or val is None or ast.unparse(val) not in allowed:
+                    raise TranslateError(f"ItemList.__getitem__ re-binds its position selector: {ast.unparse(n)[:120]} "
+                                         f"(the ranker's `items[order]` is modelled as the rows at `order`, in that order)")
+
+
+def size_constants(src) -> list[int]:
+    """Integer constants a list / array length may be compared with inside the ranking path (stats.argtopn, TopNRanker.__call__,
+    the candidate selector): literals >= 64 in those function bodies and module-level integer constants they refer to.  Never
+    fails (an unreadable file gives no constants): it only steers the generator's catalogue sizes across such thresholds; the
+    translators above still fail closed on the construct itself."""
+    out = set()
+    for rel, cls, fn in (("stats.py", None, "argtopn"), ("basic/topn.py", "TopNRanker", "__call__"),
+                         ("basic/candidates.py", "UnratedTrainingItemsCandidateSelector", "__call__")):
+        try:
+            tree = pyq.parse(src / "lenskit" / rel)
+            consts = {}
+            for st in tree.body:
+                tgt = val = None
+                if isinstance(st, ast.Assign) and len(st.targets) == 1 and isinstance(st.targets[0], ast.Name):
+                    tgt, val = st.targets[0].id, st.value
+                elif isinstance(st, ast.AnnAssign) and isinstance(st.target, ast.Name) and st.value is not None:
+                    tgt, val = st.target.id, st.value
+                if tgt and isinstance(val, ast.Constant) and isinstance(val.value, int) and not isinstance(val.value, bool):
+                    consts[tgt] = val.value
+            f = pyq.find_def(tree, cls, fn)
+            for n in ast.walk(f):
+                if isinstance(n, ast.Constant) and isinstance(n.value, int) and not isinstance(n.value, bool):
+                    out.add(n.value)
+                elif isinstance(n, ast.Name) and n.id in consts:
+                    out.add(consts[n.id])
+        except Exception:  # noqa: BLE001
+            continue
+    return sorted(x for x in out if x >= 64)
+
+
 def translate(src) -> dict:
     topn = pyq.parse(src / "lenskit" / "basic" / "topn.py")
     stats = pyq.parse(src / "lenskit" / "stats.py")
     text = (HEADER.format(who="c03", srcs="src/lenskit/basic/topn.py (TopNRanker.__call__) and src/lenskit/stats.py (argtopn)")
             + topn_len(topn) + "\n" + argtopn_plan(stats))
+    itemlist_index_contract(pyq.parse(src / "lenskit" / "data" / "items.py"))
     common_py = pyq.parse(src / "lenskit" / "pipeline" / "common.py")
     return {"Gen/C03_len.v": text, "Gen/C03_wiring.v": wiring(common_py)}
